@@ -66,6 +66,8 @@ type e2eResult struct {
 	ServerErr  string
 	ClientMs   int64
 	ServerMs   int64
+	ClientEnd  time.Time
+	ServerEnd  time.Time
 	Shown      []string // names shown to the user (parsed from the "Saved ..." text)
 	ShownOK    bool
 	ExitSent   bool
@@ -227,6 +229,7 @@ func e2eRun(o e2eOpts, w *e2eWire, h *e2eHooks) *e2eResult {
 		}
 		st.cleanup()
 		res.ServerMs = time.Since(t0).Milliseconds()
+		res.ServerEnd = time.Now()
 		serverDone <- err
 	}()
 	clientDone := make(chan struct{})
@@ -234,6 +237,7 @@ func e2eRun(o e2eOpts, w *e2eWire, h *e2eHooks) *e2eResult {
 		defer close(clientDone)
 		f.handleTrzsz()
 		res.ClientMs = time.Since(t0).Milliseconds()
+		res.ClientEnd = time.Now()
 	}()
 
 	timer := time.NewTimer(wd)
@@ -289,6 +293,15 @@ func e2eRun(o e2eOpts, w *e2eWire, h *e2eHooks) *e2eResult {
 		res.ClientOK = res.ExitSent && !containsString(res.Hung, "client")
 		if !res.ClientOK {
 			res.ClientErr = "no EXIT sent"
+			w.mu.Lock()
+			for _, m := range w.msgs {
+				if m.Dir == "c2s" && (m.Typ == "fail" || m.Typ == "FAIL") {
+					if s, ok := m.value()["s"].(string); ok {
+						res.ClientErr = e2eFirstLine(s)
+					}
+				}
+			}
+			w.mu.Unlock()
 		}
 	}
 	res.Client = nil
